@@ -690,6 +690,8 @@ impl<'a> Visitor<'a> {
             return Ok(());
         }
 
+        #[cfg(grass_verif)]
+        let _verif_depth = crate::verif::depth_guard();
         // todo: decide on naming convention for style_sheet vs stylesheet
         let stylesheet = self.load_style_sheet(url.to_string_lossy().as_ref(), false, span)?;
 
@@ -962,6 +964,8 @@ impl<'a> Visitor<'a> {
     }
 
     fn visit_dynamic_import_rule(&mut self, dynamic_import: &AstSassImport) -> SassResult<()> {
+        #[cfg(grass_verif)]
+        let _verif_depth = crate::verif::depth_guard();
         let stylesheet = self.load_style_sheet(&dynamic_import.url, true, dynamic_import.span)?;
 
         let url = stylesheet.url.clone();
